@@ -12,6 +12,8 @@ def run(tier, seed):
         "C12/smt", tier)
     from pyvc import fx_obligations
     res.add(fx_obligations.c12_fx(tier))
+    from props import dynconfirm
+    dynconfirm.apply(res, "C12", "history", also_undecided=True)
     # results of different calls are independent: every node a parse method returns is built by that invocation (not a
     # module-level / class-level object, not a node handed out before)
     from props import gxcommon as G
